@@ -18,7 +18,7 @@ THEOREMS = [
     'Ck.stepToken_render', 'Ck.parseCookieHeader_render', 'Ck.lookup_insertVal', 'Ck.cookie_valid_eq_rfc', 'Ck.cookies_first_value', 'Ck.cookies_has_name',
     'Ck.cUnquote_plain', 'Ck.unq_oct', 'Ck.unquote_quote', 'Ck.cUnquote_quote',
     # HTTP-dates (ReqDates.lean, ReqDatesProofs.lean; calendar and rendering reused from Cw)
-    'Dt.date_format_parse', 'Dt.date_below_1000_not_read_back', 'Dt.date_weekday_not_checked', 'Dt.date_weekday_not_checked_imf', 'Dt.date_any_weekday',
+    'Dt.date_format_parse', 'Dt.date_below_1000_unpadded_not_read_back', 'Dt.dtToHttp_eq_unpadded', 'Dt.date_tz_independent', 'Dt.scan_zone_gmt', 'Dt.date_weekday_not_checked', 'Dt.date_weekday_not_checked_imf', 'Dt.date_any_weekday',
     'Dt.httpDateToDt_valid', 'Dt.rfc850_parse', 'Dt.asctime_parse', 'Dt.rfc850_rejected_without_obs', 'Dt.asctime_rejected_without_obs',
     'Dt.req_date_accessors', 'Dt.getHeaderAsDatetime_required', 'Dt.req_date_reads_response_date', 'Dt.reqDate_ok_valid', 'Dt.obs_forms_rejected_by_properties',
     'Cw.ord2ymd_spec', 'Cw.parseDate_imfDate', 'Cw.weekdayOfOrd_succ', 'Cw.weekday_epoch',
@@ -55,16 +55,19 @@ STATEMENTS = {
     'Ck.cookies_first_value': "req.cookies[name] is the first value given for the name",
     'Ck.cookies_has_name': "the keys of req.cookies are exactly the names occurring in the header",
     'Ck.unquote_quote': "for every Latin-1 string and every set of legal characters, http.cookies._unquote's scanner inverts _quote-style escaping (backslash before '\"' and '\\', three-digit octal escapes for the rest)",
-    'Dt.date_format_parse': "for every date-time a datetime object can hold from the year 1000 on (1 <= month <= 12, 1 <= day <= days in that month, hour <= 23, minute, second <= 59), http_date_to_dt(dt_to_http(d)) = d, with obs_date=False and True",
-    'Dt.date_below_1000_not_read_back': "for every valid date-time before the year 1000, http_date_to_dt(dt_to_http(d)) is a ValueError: glibc's %Y writes the year without zero padding and strptime's %Y demands exactly four digits",
+    'Dt.date_format_parse': "for every date-time a datetime object can hold (1 <= year <= 9999, 1 <= month <= 12, 1 <= day <= days in that month, hour <= 23, minute, second <= 59), in a process with any time zone names (each of three or more letters), http_date_to_dt(dt_to_http(d)) = d, with obs_date=False and True",
+    'Dt.date_below_1000_unpadded_not_read_back': "regression witness for F37 (fixed by 8cb1d9b): with the rendering dt_to_http used before the fix (the C library's %Y, which glibc does not pad) every valid date-time before the year 1000 gave a text that http_date_to_dt rejects, because strptime's %Y demands exactly four digits",
+    'Dt.dtToHttp_eq_unpadded': "from the year 1000 on the zero-padded rendering equals the old strftime('%Y') rendering",
+    'Dt.date_tz_independent': "without obs_date (req.date, if_modified_since, if_unmodified_since, get_header_as_datetime) the result of http_date_to_dt does not depend on the process time zone: the fields are taken as read and labelled UTC",
+    'Dt.scan_zone_gmt': "whatever zone names the process time zone adds to %Z (three or more letters each, alternatives ordered longest first as _strptime does), 'GMT' at the end of the value is matched completely",
     'Dt.date_weekday_not_checked': "for any two of the seven day names and any continuation that does not start with a letter or digit, http_date_to_dt gives the same result (obs_date or not): the day name is parsed but never compared with the date",
     'Dt.date_weekday_not_checked_imf': "without obs_date the result is independent of the day name for every continuation whatsoever",
     'Dt.date_any_weekday': "a rendered IMF-fixdate with its day name replaced by any of the seven reads as the same date-time",
     'Dt.httpDateToDt_valid': "whatever http_date_to_dt returns (any input string, any of the five formats) is a real calendar date and time of day with 1 <= year <= 9999",
     'Dt.rfc850_parse': "with obs_date=True the RFC 850 rendering (full day name, two-digit year) of every valid date-time in 1969..2068 reads back as that date-time (POSIX pivot: 00-68 -> 20xx, 69-99 -> 19xx)",
-    'Dt.asctime_parse': "with obs_date=True the asctime rendering (day padded with a space) of every valid date-time from the year 1000 on reads back as that date-time",
+    'Dt.asctime_parse': "with obs_date=True the asctime rendering (day padded with a space, four-digit year) of every valid date-time reads back as that date-time",
     'Dt.req_date_accessors': "req.date / if_modified_since / if_unmodified_since are get_header_as_datetime(header): None if absent, the date-time if http_date_to_dt (IMF-fixdate format only) accepts the value, otherwise HTTPInvalidHeader (400)",
-    'Dt.req_date_reads_response_date': "a date header written with dt_to_http (what resp.last_modified / expires do) is read by the three properties as the same date-time (years >= 1000)",
+    'Dt.req_date_reads_response_date': "a date header written with dt_to_http (what resp.last_modified / expires do) is read by the three properties as the same date-time (every year 1..9999)",
     'Dt.obs_forms_rejected_by_properties': "known finding F30 as a theorem: for every valid date-time the RFC 850 and asctime renderings are answered with 400 by the three properties, while get_header_as_datetime(..., obs_date=True) returns the date-time",
     'Cw.ord2ymd_spec': "_ord2ymd inverts _ymd2ord on every day number >= 1 and returns a real month and day (the proleptic Gregorian calendar used for the day name)",
     'Ru.uri_eq_prefix_path_query': "req.uri = req.prefix + req.path [+ '?' + req.query_string when it is not empty]",
@@ -87,7 +90,7 @@ STATEMENTS = {
 TRUSTED = [
     "CPython int(): modelled on Latin-1 strings (strip, sign, ASCII digits, single underscores); strings of more than 4300 digits are excluded",
     "re for the entity-tag scanner and _FORWARDED_PAIR_RE (a deterministic pattern: no alternative overlaps), _COOKIE_NAME_RESERVED_CHARS, and CPython 3.12 http.cookies._unquote (its search loop) are replaced by native scanners in the models; their agreement with re/http.cookies is established by the correspondence only",
-    "datetime.strptime for the five formats of http_date_to_dt: the regular expression that _strptime.TimeRE builds (CPython 3.12, C locale, time.tzname = ('UTC', 'UTC'), so %Z = gmt|utc) is replaced by a native deterministic scanner and the datetime constructor by its range checks; strftime('%a, %d %b %Y %H:%M:%S GMT') is modelled with glibc's unpadded %Y; their agreement with CPython is established by the correspondence only",
+    "datetime.strptime for the five formats of http_date_to_dt: the regular expression that _strptime.TimeRE builds (CPython 3.12, C locale; %Z = utc|gmt|<lower-cased time.tzname of the process>, longest first) is replaced by a native deterministic scanner and the datetime constructor by its range checks; strftime's %a, %d, %b, %H, %M, %S are modelled for the C locale (and glibc's unpadded %Y for the pre-8cb1d9b regression witness); their agreement with CPython is established by the correspondence only",
     "the undoing of the PEP 3333 Latin-1 tunnelling of PATH_INFO (path.encode('iso-8859-1').decode('utf-8', 'replace')) and scope['query_string'].decode() are applied by the harness before the model sees path and query string",
     "str.lower() is modelled on Latin-1 (A-Z and 0xC0-0xDE except 0xD7 move by 32)",
 ]
@@ -96,7 +99,7 @@ ASSUMPTIONS = [
     'quoted cookie values: RFC 6265 leaves open whether the DQUOTEs belong to the value; either reading is accepted',
 ]
 RULE_EXTRA = (' HTTP-dates additionally: all five strptime formats with one- or two-digit fields, any letter case, str.isspace separators, out-of-range fields, other zone names, '
-              '1-2 character edits, and dt_to_http output for years 1..9999. URL composition: scheme (http, https, HTTPS, ws, wss, absent), Host header (absent, authority forms, hostile), server name / port '
+              '1-2 character edits, and dt_to_http output for years 1..9999; the worker shards run under the process time zones UTC0, CET-1, EST5, JST-9 in turn. URL composition: scheme (http, https, HTTPS, ws, wss, absent), Host header (absent, authority forms, hostile), server name / port '
               '(default and non-default, absent), root_path, path (empty, trailing slash, non-ASCII) with and without strip_url_path_trailing_slash, query string, Forwarded (absent, grammatical, hostile), '
               'X-Forwarded-Proto / X-Forwarded-Host; 4-12 property reads in random order with repetitions on one request object, then every property twice')
 RULE = ('values generated from the ABNFs (Range, HTTP-date in three forms, entity-tag lists, cookie-string, Forwarded elements incl. quoted IPv6 and obfuscated node/port, '
@@ -109,11 +112,11 @@ PARTIAL = ('proved cores: Content-Length, Range/range_unit, parse_host (host/por
            'Not proved: a characterisation of ALL strings http_date_to_dt accepts (the theorems cover the rendered forms, the day name, and validity of every returned value; lenient spellings are tied by the '
            'correspondence and shown by examples); that every Forwarded element has a lower-case scheme for non-grammatical headers; the accept checks (client_accepts*, decided by the independent '
            'RFC-level oracle only); content_type / user_agent / referer / auth / expect / if_range are plain header reads (oracle: case-insensitive lookup). '
-           'Observation outside the oracle: a date before the year 1000 written by the response API does not read back (Dt.date_below_1000_not_read_back).')
+           'F37 (dates before the year 1000 did not read back) is fixed in /repo (8cb1d9b); the old rendering is kept as a regression witness theorem.')
 JOBS = {'quick': 4, 'thorough': 16}
 LEVEL_TEXT = ('Lean 4 theorems on the modelled accessor cores (Content-Length, Range, parse_host/host/port, entity tags, Forwarded elements, access_route, cookies, HTTP-dates, URL composition): valid values read as the RFC says '
               '(every header built from the RFC 7239 / RFC 6265 grammars is parsed into exactly its elements / name->values mapping, by induction over the element and pair lists), invalid order is a 400, '
-              'every returned range has the documented shape; http_date_to_dt inverts dt_to_http on every four-digit-year date-time and ignores the day name; uri = prefix + path [?query], forwarded_* take Forwarded before X-Forwarded-* before the '
+              'every returned range has the documented shape; http_date_to_dt inverts dt_to_http on every date-time (years 1..9999, any process time zone) and ignores the day name; uri = prefix + path [?query], forwarded_* take Forwarded before X-Forwarded-* before the '
               "request's own values, the memo cells never change a value in any sequence of reads, and WSGI and ASGI compose the same URL from agreeing inputs; the models are tied to falcon/request.py, falcon/asgi/request.py, falcon/forwarded.py, falcon/util/uri.py, falcon/util/misc.py, falcon/util/structures.py and "
               'falcon/request_helpers.py by a differential correspondence on both request classes. All listed accessors (incl. dates, cookies, Forwarded, URL composition) are additionally '
               'judged by an independent RFC-level oracle: valid input -> RFC value, repeated access stable, only 400-class errors. Partial: see PARTIAL in the evidence.')
@@ -123,6 +126,12 @@ TECHNIQUE = 'Lean 4 theorems on parser models + differential correspondence + in
 
 def run(ctx):
     import asyncio
+    import os
+    import time
+    # part of the shards run under a non-UTC process time zone: no accessor may depend on it (the harness's own reference values
+    # are built from aware UTC datetimes, calendar.monthrange and literal strings only)
+    tz = ['UTC0', 'CET-1', 'EST5', 'JST-9'][ctx.shard[0] % 4]
+    os.environ['TZ'] = tz; time.tzset(); ctx.count('process_tz_' + tz)
     import calendar
     import datetime as dtm
     import string
@@ -363,6 +372,8 @@ def run(ctx):
     sess2 = ctx.session('forwarded / access_route / cookies / get_cookie_values = Fw, Ck models', 'fwdriver')
 
     sess3 = ctx.session('http_date_to_dt / dt_to_http / date accessors / URL composition = Dt, Ru models', 'rudriver')
+    # what _strptime.LocaleTime offers for %Z besides utc / gmt: the process's zone names, lower-cased
+    tz_tok = ','.join(hs(n) for n in ([time.tzname[0].lower()] + ([time.tzname[1].lower()] if time.daylight else []))) or '-'
 
     def show_opt(v):
         return 'none' if v is None else hs(v)
@@ -550,7 +561,7 @@ def run(ctx):
                 else:
                     if r != ('ok', exp): failed = failed or f'{a} for {hv}: {r!r}, RFC reading {exp!r}'
         ctx.oracle('accessors: RFC value on valid input, stable on repeat, only 400-class errors, case-insensitive lookup',
-                   failed is None, failed, {'stack': stack, 'scheme': scheme, 'headers': headers, 'mode': mode})
+                   failed is None, failed, {'stack': stack, 'scheme': scheme, 'headers': headers, 'mode': mode, 'process_tz': tz})
         ctx.seen((stack, scheme, tuple(headers)), nontriv)
         ctx.count('mode_' + mode); ctx.count('stack_' + stack)
         # ---- model correspondence on the modelled cores
@@ -716,7 +727,7 @@ def run(ctx):
                 e = 'bad'
             except Exception as ex:  # noqa
                 e = 'EXC ' + type(ex).__name__
-            sess3.op(f'date {ob} {hs(v)}', e)
+            sess3.op(f'date {tz_tok} {ob} {hs(v)}', e)
         # the request side: the three properties and get_header_as_datetime on both classes
         name = rnd.choice(['Date', 'If-Modified-Since', 'If-Unmodified-Since'])
         present = rnd.random() < 0.9
@@ -732,8 +743,9 @@ def run(ctx):
             e = 'invalid'
         except Exception as ex:  # noqa
             e = 'EXC ' + type(ex).__name__
-        sess3.op(f'getdt {1 if rqd else 0} {1 if ob else 0} {hs(v) if present else "none"}', e)
-        # rendering: strftime on every year a datetime can hold (glibc does not pad %Y), and the two obsolete renderings
+        sess3.op(f'getdt {tz_tok} {1 if rqd else 0} {1 if ob else 0} {hs(v) if present else "none"}', e)
+        # rendering: dt_to_http on every year a datetime can hold (the year is zero-padded since 8cb1d9b / F37), the rendering used before
+        # that fix (the C library's %Y) as a regression witness, and the two obsolete renderings
         y = rnd.choice([rnd.randint(1, 9999), rnd.randint(1, 999), rnd.randint(1000, 9999)]); m = rnd.randint(1, 12)
         dd = rnd.randint(1, calendar.monthrange(y, m)[1]); H, M, S = rnd.randint(0, 23), rnd.randint(0, 59), rnd.randint(0, 59)
         dt0 = dtm.datetime(y, m, dd, H, M, S, tzinfo=dtm.timezone.utc)
@@ -743,19 +755,24 @@ def run(ctx):
             back = rd_civil(fmisc.http_date_to_dt(txt))
         except ValueError:
             back = 'bad'
-        sess3.op(f'date 0 {hs(txt)}', back)
-        ok = back == rd_civil(dt0) or y < 1000
-        ctx.oracle('http-date: http_date_to_dt(dt_to_http(d)) == d for every four-digit year', ok, None if ok else f'{dt0.isoformat()} rendered {txt!r} read back {back}', {'datetime': dt0.isoformat()})
-        if y < 1000 and back == 'bad': ctx.count('date_year_below_1000_not_read_back')
+        sess3.op(f'date {tz_tok} 0 {hs(txt)}', back)
+        rq = (mk_wsgi if rnd.random() < 0.5 else mk_asgi)([('Date', txt)])
+        back_req = read(rq, 'date')
+        ok = back == rd_civil(dt0) and back_req == ('ok', dt0)
+        ctx.oracle('http-date: http_date_to_dt(dt_to_http(d)) == d and req.date reads it back, for every year 1..9999 and whatever the process time zone', ok,
+                   None if ok else f'{dt0.isoformat()} rendered {txt!r} read back {back} / req.date {back_req!r} (process TZ={tz})', {'datetime': dt0.isoformat(), 'process_tz': tz})
+        old_txt = dt0.strftime('%a, %d %b %Y %H:%M:%S GMT')   # dt_to_http before 8cb1d9b
+        sess3.op(f'fmtold {y} {m} {dd} {H} {M} {S}', hs(old_txt))
+        try:
+            old_back = rd_civil(fmisc.http_date_to_dt(old_txt))
+        except ValueError:
+            old_back = 'bad'
+        sess3.op(f'date {tz_tok} 0 {hs(old_txt)}', old_back)
         wd = dt0.weekday()
         sess3.op(f'rfc850 {y} {m} {dd} {H} {M} {S}', hs(f'{DAYL[wd]}, {dd:02d}-{MON[m-1]}-{y % 100:02d} {H:02d}:{M:02d}:{S:02d} GMT'))
-        sess3.op(f'asctime {y} {m} {dd} {H} {M} {S}', hs(f'{DAY[wd]} {MON[m-1]} {dd:2d} {H:02d}:{M:02d}:{S:02d} {y}'))
+        sess3.op(f'asctime {y} {m} {dd} {H} {M} {S}', hs(f'{DAY[wd]} {MON[m-1]} {dd:2d} {H:02d}:{M:02d}:{S:02d} {y:04d}'))
         ctx.seen(('date', v, y, m, dd, H, M, S), True)
 
-    if ctx.shard[0] == 0:
-        ctx.notes.append("observation (not counted as an oracle failure; reported to the coordinator): for years 1..999 dt_to_http writes the year unpadded (glibc %Y) and "
-                         "http_date_to_dt answers ValueError for that text, so a response date before the year 1000 does not read back - theorem Dt.date_below_1000_not_read_back; "
-                         "see input_distribution['date_year_below_1000_not_read_back']")
     # ---- URL composition: scheme / netloc / host / root_path / forwarded_* / prefix / uri / relative_uri / subdomain through the memo cells
     def latin1(s):
         return all(ord(c) < 256 for c in s)
